@@ -48,9 +48,26 @@ Theorem C10_full_blocks_peak_error : forall rows xo yo (k : Z),
   Z.abs (idct_value_at (idct_values (DctFull rows)) (Z.of_nat xo) (Z.of_nat yo) - clamp (-256) 255 k) <= 1.
 Proof. exact full_block_within_1. Qed.
 
+(* the sparse-block shortcuts: a block whose non-zero coefficients all lie in its first row (first column) is
+   transformed by one pass and a multiplication by the table's C(0); for every such block and position the result is
+   within 0.517 of the exact clipped transform of that block *)
+Theorem C10_first_row_blocks_accurate : forall row xo yo (j : nat),
+  (forall f, (f < 8)%nat -> Z.abs (nth f row 0) <= 2048) -> (xo < 8)%nat ->
+  (Rabs (IZR (idct_value_at (idct_values (DctHoriz row)) (Z.of_nat xo) yo)
+         - Rclamp (-256) 255 (ideal4 (fun r f => if Nat.eqb r 0 then nth f row 0%Z else 0%Z) xo j / 4)) <= 0.517)%R.
+Proof. exact first_row_block_accurate. Qed.
+
+Theorem C10_first_column_blocks_accurate : forall col xo yo (c : nat),
+  (forall f, (f < 8)%nat -> Z.abs (nth f col 0) <= 2048) -> (yo < 8)%nat ->
+  (Rabs (IZR (idct_value_at (idct_values (DctVert col)) xo (Z.of_nat yo))
+         - Rclamp (-256) 255 (ideal4 (fun r f => if Nat.eqb f 0 then nth r col 0%Z else 0%Z) c yo / 4)) <= 0.517)%R.
+Proof. exact first_column_block_accurate. Qed.
+
 Print Assumptions C10_dc_blocks_exact.
 Print Assumptions C10_basis_table.
 Print Assumptions C10_zero_block.
 Print Assumptions C10_annexA_sample_in_kernel.
 Print Assumptions C10_full_blocks_accurate.
 Print Assumptions C10_full_blocks_peak_error.
+Print Assumptions C10_first_row_blocks_accurate.
+Print Assumptions C10_first_column_blocks_accurate.
